@@ -8,7 +8,8 @@
    a reference may overlap anything else. *)
 EXTENDS Filter, Json
 CONSTANTS P,          \* positions 0..P
-          MaxNon, MaxRef
+          MaxNon, MaxRef,
+          Focus        \* TRUE: only full case citations, full span start in {s, s-1, 0}, end in {e, P}
 VARIABLES l, phase, nid
 vars == <<l, phase, nid>>
 
@@ -20,6 +21,7 @@ Init == l = <<>> /\ phase = "build" /\ nid = 1
 AddNon == /\ phase = "build" /\ Count(FALSE) < MaxNon
           /\ \E s \in 0..P, e \in 0..P, fs \in 0..P, fe \in 0..P, kd \in {"fc", "oth"} :
                /\ s < e /\ fs <= s /\ e <= fe /\ s >= LastNon
+               /\ (Focus => (kd = "fc" /\ fs \in {s, s - 1, 0} /\ fe \in {e, P}))
                /\ l' = Append(l, [s |-> s, e |-> e, fs |-> fs, fe |-> fe, kind |-> kd, id |-> nid])
           /\ nid' = nid + 1 /\ UNCHANGED phase
 (* a reference for full case citation k: after its span; inserted before it, or appended *)
@@ -38,5 +40,7 @@ Sorted      == InOrder(R)
 Disjoint    == NoOverlap(R)
 NonRefsKept == KeepsNonRefs(l, R) /\ NothingNew(l, R)
 Idempotent  == FilterCitations(R) = R
+(* for simulation: only lists with at least three non-reference and two reference citations *)
+EmitDeep == (Count(FALSE) >= 3 /\ Count(TRUE) >= 2) => PrintT(<<"L", ToJson([l |-> l, r |-> [k \in DOMAIN R |-> R[k].id]])>>)
 Emit == PrintT(<<"L", ToJson([l |-> l, r |-> [k \in DOMAIN R |-> R[k].id]])>>)
 =============================================================================
